@@ -1,0 +1,24 @@
+//go:build verif
+
+package packfile
+
+import (
+	"io"
+
+	"github.com/wrgl/wrgl/pkg/encoding"
+)
+
+// EncodeObjTypeAndLenForVerif exposes the object header encoder to the
+// verification harness (simulation builds only).
+func EncodeObjTypeAndLenForVerif(buf encoding.Bufferer, objType int, u uint64) []byte {
+	b := encodeObjTypeAndLen(buf, objType, u)
+	c := make([]byte, len(b))
+	copy(c, b)
+	return c
+}
+
+// DecodeObjTypeAndLenForVerif exposes the object header decoder to the
+// verification harness (simulation builds only).
+func DecodeObjTypeAndLenForVerif(r io.Reader) (objType int, u uint64, err error) {
+	return decodeObjTypeAndLen(r)
+}
